@@ -132,3 +132,10 @@ func VerifSessionValve(s *mux.Session) mux.Valve { return s.Valve }
 
 // VerifWrapValve replaces the record's valve by a wrapper of it (sessions created afterwards meter into the wrapper).
 func VerifWrapValve(u *ActiveUser, wrap func(mux.Valve) mux.Valve) { u.valve = wrap(u.valve) }
+
+// HoldActiveUsers takes the panel's activeUsersM (write mode) and returns the function that releases it: connections
+// dispatched meanwhile queue up at the panel and are let in together.
+func (v *VerifPanel) HoldActiveUsers() (release func()) {
+	v.P.activeUsersM.Lock()
+	return v.P.activeUsersM.Unlock
+}
